@@ -130,6 +130,7 @@ class FunctionSpec:
         self.kind = 'function'
         self.noprobe = False
         self.flags = []
+        self.includes = []
         for k, v in parse_directives(path):
             if k in ('function', 'file', 'sig', 'inclass', 'unit', 'c', 'harness', 'wrapbody', 'bounded'):
                 setattr(self, k, v.strip())
@@ -178,6 +179,8 @@ class FunctionSpec:
                 if not m:
                     raise SpecError("bad @at header %r in %s" % (head, path))
                 self.ats.append(AtSpec(m.group(1), int(m.group(2)), m.group(3), '\n'.join(rest)))
+            elif k == 'include':
+                self.includes += v.split()
             elif k == 'safety':
                 self.safety = v.strip()
             elif k == 'kind':
